@@ -455,6 +455,16 @@ fn matrix() -> Vec<Candidate> {
     v
 }
 
+/// Encodings only bytes can express: a present-but-empty transition vector in slot `slot` of the first
+/// state of a small machine (State::new never builds this).
+pub fn empty_vector_string(slot: usize, two_states: bool) -> Option<String> {
+    let plain = (None, (None, None), vec![(Event::NormalSent, vec![Trans(0, 1.0)])]);
+    let states = if two_states { vec![plain.clone(), plain] } else { vec![plain] };
+    let (mut mm, _) = mirror_of(0.0, 0.0, states);
+    mm.states[0].transitions[slot % 13] = Some(vec![]);
+    mirror_string(&mm)
+}
+
 #[derive(Debug, Clone, Copy, PartialEq, Eq)]
 enum Judgement {
     Accept,
@@ -657,6 +667,23 @@ impl Prop for C12 {
             Err((sig, msg)) => out.violation(sig, msg, json!({"object": format!("{:?}", c.mirror), "encoding": mirror_string(&c.mirror)})),
             Ok(()) => {
                 out.nontrivial(hash_of(&format!("{:?}", c.mirror)));
+                // the same objects again in another machine: the states of an accepted machine, reused in a
+                // machine with fewer states (targets may now point past the end), must be judged afresh
+                if let Some(m) = &c.machine {
+                    if m.states.len() >= 2 && m.validate().is_ok() {
+                        let keep = r.range(1, m.states.len() as u64 - 1) as usize;
+                        let mut small = m.clone();
+                        small.states.truncate(keep);
+                        let mut mm = c.mirror.clone();
+                        mm.states.truncate(keep);
+                        let c2 = Candidate { desc: format!("states of an accepted machine reused in a machine of {keep} states"), mirror: mm, machine: Some(small) };
+                        out.evaluations += 1;
+                        out.bump("accepted_machines_truncated_and_judged_again");
+                        if let Err((sig, msg)) = judge(&c2, out) {
+                            out.violation(sig, msg, json!({"object": format!("{:?}", c2.mirror), "encoding": mirror_string(&c2.mirror)}));
+                        }
+                    }
+                }
                 out.sample(|| json!({"object": format!("{:?}", c.mirror), "well_formed": wf_mirror(&c.mirror).is_ok()}));
             }
         }
